@@ -1234,3 +1234,68 @@ def handle_receive_site_findings(F):
                     "Client::handle takes one piece of the server's reply at client.rs:%s and goes on: Server::recv hands a large reply out in pieces, so after `COPY t FROM STDIN; SELECT <many rows>` + CopyDone the client gets a prefix without ReadyForQuery, "
                     "the connection returns to the pool with the rest unread, and the next client receives those rows as the answer to its own query" % c.span.split(":")[1], c.where()))
     return out
+
+
+def kept_pool_identity_findings(F):
+    """A reload keeps a running bb8 pool when `config_hash` of the live pool equals the identity computed from the new file. The kept pool was built with the
+    old user's pool_size: the identity must be fed by Pool::hash_value of the section *as configured* (users included - nothing cleared or rewritten on the
+    way), directly or through further hashers. Returns [(key, ok, okmsg, failmsg, where)] or None when the comparison is not found."""
+    fc = F.body("pgcat::pool::ConnectionPool::from_config::{closure#0}")
+    if fc is None:
+        return None
+    HASHC = "re:Hash(<.*>)?>::hash$|^core::hash::Hash::hash$|impl core::hash::Hash for .*>::hash$"
+    hash_calls = fc.calls(HASHC)
+
+    def feeders(op_, seen_fin):
+        """calls the value comes from - for the finish() of a hasher also, transitively, what was hashed into it"""
+        res = []
+        for oo in origins(fc, op_, taint=True):
+            if oo.kind != "call":
+                continue
+            res.append(oo.call)
+            if oo.call.name.endswith("::finish") and id(oo.call) not in seen_fin:
+                seen_fin.add(id(oo.call))
+                hl = set()
+                origins(fc, oo.call.args[0], visited=hl)
+                for hc in hash_calls:
+                    sl = set()
+                    if len(hc.args) >= 2:
+                        origins(fc, hc.args[1], visited=sl)
+                    if sl & hl:
+                        res.extend(feeders(hc.args[0], seen_fin))
+        return res
+    found = []
+    for sw in switches(fc):
+        if not sw.is_bool():
+            continue
+        for o in sw.origins():
+            if o.kind == "bin" and o.what in ("Eq", "Ne"):
+                for me, other in (("a", "b"), ("b", "a")):
+                    if any(".config_hash" in oo.proj for oo in origins(fc, o.extra[me]) if oo.kind == "place"):
+                        found.append((sw, feeders(o.extra[other], set())))
+    if not found:
+        return None
+    out = []
+    for sw, calls in found:
+        hv = [c for c in calls if c.name == "pgcat::config::Pool::hash_value"]
+        if not hv:
+            out.append(("kept-pool-identity-is-the-section", False, "", "what from_config compares with the live pool's config_hash is not fed by Pool::hash_value of the new section: a pool can be kept although its "
+                        "section (the user's pool_size) changed - bb8 goes on allowing the old number of connections", ""))
+            continue
+        for c in hv:
+            vis = set()
+            origins(fc, c.args[0], visited=vis, taint=True)
+            touched = []
+            for blk, i, st in fc.assigns():
+                rv = st["rv"]
+                if rv["k"] == "ref" and rv.get("mut") and rv["pl"]["l"] in vis and fc.varnames.get(rv["pl"]["l"]) and any(str(p_).startswith(".") or isinstance(p_, dict) for p_ in rv["pl"]["p"]):
+                    touched.append((rv["pl"]["l"], blk))
+                if st["lhs"]["l"] in vis and st["lhs"]["p"] and fc.varnames.get(st["lhs"]["l"]) and any(p_ != "*" for p_ in st["lhs"]["p"]):
+                    touched.append((st["lhs"]["l"], blk))
+            # only what happens before the hash is taken matters
+            touched = [(l, b_) for l, b_ in touched if b_ in fc.reach([0]) and c.block in fc.reach([b_])]
+            names = sorted({(fc.varnames.get(l) or ["_%d" % l])[0] for l, _ in touched})
+            out.append(("kept-pool-identity-is-the-section", not touched, "the identity a kept pool is compared by is Pool::hash_value of the section as configured (nothing of it is rewritten before the hash)",
+                        "the section whose hash decides `unchanged => keep the running pool` is modified first (%s is written through before hash_value): what is cleared there - the users, with their pool_size - is no longer part "
+                        "of the identity; after a reload that lowers pool_size the kept bb8 pool still allows the old number of server connections" % names, c.where()))
+    return out
